@@ -156,6 +156,16 @@ reg("C08",
     "expansion recorder + generator-truth oracle (bounded exhaustive) + runtime trace differential", "DESIGN.md §4 C08")
 
 
+reg("C18",
+    "Exploration by monitoring three channels: the recorder shows where attributes end up (none of the user's on generated traits, "
+    "impls, methods or parameters; trait-method attributes mirrored on delegating methods); a foreign attribute macro (vattr::mark) "
+    "placed below entrait logs its own invocations, showing it ran exactly once per fn and received the fn as written; compiled "
+    "clients show that cfg-disabled members of modules / impl blocks / traits leave nothing dangling and enabled ones are reachable "
+    "(trace monitor).",
+    "`#[deprecated]` on trait methods is not generated (rustc rejects it on impl items while the statement demands mirroring); cfg/cfg_attr are not combined with the foreign-macro witness because rustc evaluates them first.",
+    "recorder + foreign-macro invocation log + compile/run monitor", "DESIGN.md §4 C18")
+
+
 def manifest():
     hooks_commits = subprocess.run(["git", "-C", "/repo", "log", "--format=%H", "--grep=^verif hook"],
                                    stdout=subprocess.PIPE, text=True).stdout.split()
